@@ -257,6 +257,31 @@ def pre_removal(ctx, rule='A14p'):
     ok = 'choice_nodes = self.ordered_choice_nodes(choice_nodes)' in t2
     ctx.ob(rule, fkey(f2, rule, 'choice-order-canonical'), ok, f2.where,
            'the constrained choices are stored in the canonical choice order (the order the relations refer to)', '')
+    # the option lists of the constraint are in the canonical option order (get_option_nodes: sorted by option id) -
+    # the order the option *indices* of the relations, of the design vector and of the pre-removal refer to; the
+    # adjacency order of the graph (successors / out-edges) is the order of insertion
+    opt_sources = []
+    for u_ in unit_functions(ctx.prog, f2):
+        for c_ in walk_fn(u_):
+            if isinstance(c_, ast.Call) and call_name(c_) in ('append', 'extend') and c_.args and \
+                    isinstance(c_.func, ast.Attribute) and 'option' in norm(c_.func.value):
+                opt_sources.append((u_, c_))
+            elif isinstance(c_, ast.Assign) and isinstance(c_.targets[0], ast.Name) and \
+                    'option' in c_.targets[0].id and isinstance(c_.value, (ast.ListComp, ast.List)):
+                opt_sources.append((u_, c_))
+    sel = [(u_, c_) for u_, c_ in opt_sources
+           if any(isinstance(x_, ast.Call) and call_name(x_) in ('get_option_nodes', 'successors', 'iter_out_edges',
+                                                                 'out_edges', 'neighbors') for x_ in ast.walk(c_))]
+    if not sel:
+        raise AnalysisError('DSG.constrain_choices: where the option lists of a selection-choice constraint come from '
+                            'was not recognised')
+    ok = all(any(isinstance(x_, ast.Call) and call_name(x_) == 'get_option_nodes' for x_ in ast.walk(c_)) and
+             not any(isinstance(x_, ast.Call) and call_name(x_) in ('successors', 'iter_out_edges', 'out_edges',
+                                                                   'neighbors') for x_ in ast.walk(c_))
+             for u_, c_ in sel)
+    ctx.ob(rule, fkey(f2, rule, 'option-order-canonical'), ok, f2.where,
+           'the option lists stored in a constraint come from get_option_nodes (canonical option order, the one option '
+           'indices refer to), not from the adjacency order of the graph', '; '.join(short(c_, 70) for _, c_ in sel))
     # a raising test that compares the option counts of the constrained choices: any(len(x) != n ...) or the set of
     # lengths having more than one element
     ok = False
